@@ -49,6 +49,15 @@ type PathFlow struct {
 	// package-level variable) into a write of that state: read is the loading/lookup value,
 	// write the storing instruction, val the value written.
 	OnStateCross func(read ssa.Value, write ssa.Instruction, val ssa.Value)
+	// OnBarrierChain is OnBarrier with the chain of call sites (outermost first) through
+	// which the walk descended into the function that contains v.
+	OnBarrierChain func(v ssa.Value, marked bool, chain []*ssa.Call)
+	// ReturnFilter, when non-nil, is asked before the walk continues from a call result into
+	// one return of the callee; chain ends with the call being entered. false = that
+	// return is infeasible for this call and is skipped.
+	ReturnFilter func(chain []*ssa.Call, ret *ssa.Return) bool
+	// PhiEdge, when non-nil, filters the incoming edges of a phi (false = edge not followed).
+	PhiEdge func(phi *ssa.Phi, i int) bool
 	// Within: when non-nil the walk never leaves this function (parameters are leaves).
 	Within *ssa.Function
 	// MaxNodes bounds the walk (default 6000); exceeding it sets Top.
@@ -149,12 +158,18 @@ func (w *pathWalker) visit(v ssa.Value, ctx *pathCtx, cross int, marked bool) {
 		if w.q.OnBarrier != nil {
 			w.q.OnBarrier(v, marked, w.argOf(ctx))
 		}
+		if w.q.OnBarrierChain != nil {
+			w.q.OnBarrierChain(v, marked, chainOf(ctx))
+		}
 		return
 	}
 	switch x := v.(type) {
 	case *ssa.Const, *ssa.Global, *ssa.Function, *ssa.Builtin, *ssa.MakeClosure:
 	case *ssa.Phi:
-		for _, e := range x.Edges {
+		for i, e := range x.Edges {
+			if w.q.PhiEdge != nil && !w.q.PhiEdge(x, i) {
+				continue
+			}
 			w.visit(e, ctx, cross, marked)
 		}
 	case *ssa.Extract:
@@ -286,6 +301,9 @@ func (w *pathWalker) call(c *ssa.Call, idx int, ctx *pathCtx, cross int, marked 
 		(w.q.Within == nil) && (w.q.NoFollow == nil || !w.q.NoFollow(cal.Static)) && !inCtx(ctx, cal.Static) {
 		inner := w.enter(c, ctx)
 		for _, r := range Returns(cal.Static) {
+			if w.q.ReturnFilter != nil && !w.q.ReturnFilter(chainOf(inner), r) {
+				continue
+			}
 			if idx < len(r.Results) {
 				w.visit(ReturnResult(r, idx), inner, cross+1, marked)
 			}
@@ -352,6 +370,18 @@ func (w *pathWalker) argOf(ctx *pathCtx) func(p *ssa.Parameter) ssa.Value {
 	}
 }
 
+// chainOf lists the call sites of a context, outermost first.
+func chainOf(ctx *pathCtx) []*ssa.Call {
+	var out []*ssa.Call
+	for c := ctx; c != nil; c = c.parent {
+		out = append(out, c.call)
+	}
+	for i, j := 0, len(out)-1; i < j; i, j = i+1, j-1 {
+		out[i], out[j] = out[j], out[i]
+	}
+	return out
+}
+
 // inCtx: fn is already being walked on this chain (recursion).
 func inCtx(ctx *pathCtx, fn *ssa.Function) bool {
 	for c := ctx; c != nil; c = c.parent {
@@ -379,7 +409,9 @@ func (w *pathWalker) load(x *ssa.UnOp, ctx *pathCtx, cross int, marked bool) {
 			}
 		}
 	case *ssa.Alloc:
-		w.memory(a, ctx, cross, marked)
+		if !w.reachingStores(a, x, ctx, cross, marked) {
+			w.memory(a, ctx, cross, marked)
+		}
 	case *ssa.IndexAddr:
 		if allocRoot(a) != nil {
 			w.memory(a, ctx, cross, marked)
@@ -444,6 +476,68 @@ func (p *Program) globalStores(g *ssa.Global) []*ssa.Store {
 		globalStoreCache.p, globalStoreCache.idx = p, idx
 	}
 	return globalStoreCache.idx[g]
+}
+
+// reachingStores handles a read (at instruction at, in the allocating function) of a
+// scalar local variable that lives in memory (captured by a closure or address-taken)
+// flow-sensitively: only the stores that can reach the read without being overwritten by
+// another store to the variable are followed, plus stores that may execute after at when at
+// creates a closure (the closure may run later) and stores made inside closures. It reports
+// false (nothing done) when the variable is not a plainly stored scalar.
+func (w *pathWalker) reachingStores(al *ssa.Alloc, at ssa.Instruction, ctx *pathCtx, cross int, marked bool) bool {
+	if al.Referrers() == nil || at.Parent() != al.Parent() {
+		return false
+	}
+	var stores []*ssa.Store
+	var closures []*ssa.MakeClosure
+	for _, r := range *al.Referrers() {
+		switch rr := r.(type) {
+		case *ssa.Store:
+			if rr.Addr != al {
+				return false // the address itself is stored somewhere
+			}
+			stores = append(stores, rr)
+		case *ssa.UnOp, *ssa.DebugRef:
+		case *ssa.MakeClosure:
+			closures = append(closures, rr)
+		default:
+			return false // field/index addressing, passed to a call, ...: whole-variable model
+		}
+	}
+	w.res.Visited[al] = true
+	avoid := map[ssa.Instruction]bool{}
+	for _, st := range stores {
+		avoid[st] = true
+	}
+	_, atIsClosure := at.(*ssa.MakeClosure)
+	for _, st := range stores {
+		delete(avoid, st)
+		reaches := CanReachAvoiding(st, at, avoid)
+		avoid[st] = true
+		// a store after the closure's creation matters (the closure may run later) unless it
+		// can only be reached by executing the variable's declaration again (a new variable)
+		if reaches || (atIsClosure && CanReachAvoiding(at, st, map[ssa.Instruction]bool{al: true})) {
+			w.visit(st.Val, ctx, cross, marked)
+		}
+	}
+	// writes performed inside closures that capture the variable
+	for _, mc := range closures {
+		fn, ok := mc.Fn.(*ssa.Function)
+		if !ok {
+			continue
+		}
+		for i, b := range mc.Bindings {
+			if b != ssa.Value(al) || i >= len(fn.FreeVars) || fn.FreeVars[i].Referrers() == nil {
+				continue
+			}
+			for _, r := range *fn.FreeVars[i].Referrers() {
+				if st, isStore := r.(*ssa.Store); isStore && st.Addr == ssa.Value(fn.FreeVars[i]) {
+					w.visit(st.Val, ctx, cross, marked)
+				}
+			}
+		}
+	}
+	return true
 }
 
 // memory: the values written into the local memory that addr denotes (the whole variable:
@@ -554,6 +648,9 @@ func (w *pathWalker) freevar(fv *ssa.FreeVar, ctx *pathCtx, cross int, marked bo
 	Instrs(parent, func(in ssa.Instruction) {
 		if mc, ok := in.(*ssa.MakeClosure); ok && mc.Fn == fn && idx < len(mc.Bindings) {
 			b := mc.Bindings[idx]
+			if al, isAlloc := b.(*ssa.Alloc); isAlloc && w.reachingStores(al, mc, ctx, cross, marked) {
+				return
+			}
 			if allocRoot(b) != nil {
 				w.memory(b, ctx, cross, marked)
 				return
